@@ -33,6 +33,12 @@ FIXED = [
  ("C15","compression-roundtrip","D24 CompressionType 'none' printed but not parsed","fix: CompressionType::from_str accepts","replays/C15/D24-none-not-parsed.json"),
  ("C15","nevra-roundtrip","D23 Nevra::parse split the name at the first '-'","fix: Nevra::parse splits the name off from the right","replays/C15/D23-name-with-dashes.json"),
  ("C19","accepts-malformed","D27 'clause starts with an operator' rule tested against the whole text ('=e +p' accepted, 'cap_chown+p =e' rejected)","fix: capability clauses starting with an operator","replays/C19/D27-operator-clause-after-equals.json"),
+ ("C14","write-panic","D08 index entries written with Write::write and only debug-asserted: short-writing sinks got a truncated index (release) or a panic (debug)","fix: index entries are serialised with write_all","replays/C14/D08-index-entries-short-write.json"),
+ ("C02","ok-without-verification","D09 OPENPGP signature tag with zero entries made verify_signature return Ok without consulting the verifier","fix: an OpenPGP signature tag with zero entries","replays/C02/D09-openpgp-zero-entries.json"),
+ ("C10","key-id","D20 signature_key_ids tested the accumulated (empty) list and failed on every library-signed package","fix: signature_key_ids checks the issuer count","replays/C10/D20-key-ids-of-library-signed.json"),
+ ("C17","panic","D25 destinations without a file name ('./', '/..', '/usr/..', './..') panicked in with_file","fix: destinations without a file name are rejected","replays/C17/D25-dest-dot-slash.json"),
+ ("C17","unreadable-result","D28 destination with a trailing slash was archived under './a/' while the header recorded '/a' (archive name != header path)","fix: archive entry names are derived from the recorded directory","replays/C17/D28-trailing-slash-destination.json"),
+ ("C17","panic","D26 out-of-range gzip/xz/bzip2 levels panicked inside the encoder constructors","fix: out-of-range gzip/xz/bzip2 compression levels","replays/C17/D26-compression-level-out-of-range.json"),
 ]
 exec(open(os.path.join(ROOT, "tools", "known_extra.py")).read())
 rows = []
